@@ -876,3 +876,91 @@ def _mk_monotone(path, props, mkctx):
 
 for _v in VALIDATORS:
     _mk_monotone(*_v)
+
+
+# ---------------------------------------------------------------------------
+# AddImplicitCasts: reaches every expression, and leaves call / constructor / index operands at the required type (C03, C05, C09)
+
+AIC = "nsl.passes.AddImplicitCasts::AddImplicitCastVisitor"
+
+
+@family("CASTS.visit", props=["C03", "C05", "C09"], functions=[AIC + ".v_CallExpression", AIC + ".v_ConstructPrimitiveExpression", AIC + ".v_BinaryExpression", AIC + ".v_ArrayExpression", AIC + "._GetTargetType"],
+        assumptions=["induction on tree height with opaque (typed) children; argument / parameter types enumerated over int, float, uint, float2, int2, float4, int4"])
+def casts_visit(R):
+    """The cast pass visits every child of every node class exactly once (so casts are also inserted in calls nested in arguments, constructor
+    arguments and index expressions), and afterwards every argument of a call has the component type of its parameter, every constructor
+    argument the component type of the constructed type, each binary operand the resolver's operand type -- by wrapping the argument in an
+    implicit cast of the argument's own shape, never by reordering or dropping arguments."""
+    cls = resolve(AIC)
+    a = ag.A()
+    import nsl.types as ty
+    import nsl.op as op
+    from .overload_c import make_function
+    I, F, U = ty.Integer(), ty.Float(), ty.UnsignedInteger()
+    # reach
+    for label, mk in ag.all_shapes().items():
+        node, _ = mk()
+        kind = type(node).__name__
+        if kind == "CallExpression":
+            fn_t = make_function("h", [I, I][: len(node.GetArguments())])
+            node = a.CallExpression(fn_t, [ag.E(f"e{i}", I) for i in range(len(node.GetArguments()))])
+        elif kind == "ConstructPrimitiveExpression":
+            node = a.ConstructPrimitiveExpression(ty.VectorType(F, 2), [ag.E("e0", F), ag.E("e1", F)])
+        elif kind == "BinaryExpression":
+            node = a.BinaryExpression(op.Operation.ADD, ag.E("l", I), ag.E("r", I))
+            node.ResolveType(I, I)
+        elif kind == "AssignmentExpression":
+            node = a.AssignmentExpression(ag.E("l", I), ag.E("r", I))
+            node.ResolveType(I, I)
+        elif kind == "ArrayExpression":
+            node = a.ArrayExpression(ag.E("p", ty.ArrayType(I, [4])), ag.E("i", I))
+        kids = ag.children_of(node)
+        vis = cls()
+        try:
+            step = ag.visitor_step(vis, node, None)
+            ok = step.raised is None and sorted(id(x) for x, _ in step.visits) == sorted(id(k) for k in kids)
+            det = f"visited {[getattr(x, 'tag', '?') for x, _ in step.visits]} of {[getattr(k, 'tag', type(k).__name__) for k in kids]}; raised={step.raised!r}"
+        except Exception as e:
+            ok, det = False, f"harness: {type(e).__name__}: {e}"
+        R.check(f"CASTS.reach[{label}]", AIC, ok, detail=f"{kind}: {det} (an expression nested below is never given its casts)",
+                replay=script("""
+                    import io, contextlib
+                    from nsl import Compiler, LinearIR, VM
+                    src = 'function g(int x) -> int { return x; }\\nfunction h(int x) -> int { return (x * 2); }\\nexport function f(float a) -> int { return h(g(a)); }'
+                    with contextlib.redirect_stdout(io.StringIO()):
+                        r = Compiler.Compiler().Compile(src)
+                    l = LinearIR.Linker(); l.AddModule(r.IRModule)
+                    got = VM.VirtualMachine(l.Link()).Invoke('f', a=1.5)
+                    print(src); print('f(1.5) =', got, '; g takes an int: g(1.5) is g(1) = 1, h(1) = 2')
+                    if got != 2: print('REPLAY-CONFIRMED')
+                    """) if kind in ("CallExpression",) else None)
+    # call arguments end up at the parameter's component type
+    T = {"int": I, "float": F, "uint": U, "float2": ty.VectorType(F, 2), "int2": ty.VectorType(I, 2), "float4": ty.VectorType(F, 4), "int4": ty.VectorType(I, 4)}
+    conv = [(x, y) for x in T for y in T if tc.desc(T[x])[0] == tc.desc(T[y])[0] and tc.desc(T[x])[2] == tc.desc(T[y])[2]]
+    for at, pt in conv:
+        fn_t = make_function("h", [T[pt], I])
+        e0, e1 = ag.E("e0", T[at]), ag.E("e1", I)
+        node = a.CallExpression(fn_t, [e0, e1])
+        cls().v_Generic(node, None)
+        args = node.GetArguments()
+        ok = len(args) == 2 and args[1] is e1
+        if ok:
+            if tc.desc(T[at])[1] == tc.desc(T[pt])[1]:
+                ok = args[0] is e0
+            else:
+                ok = isinstance(args[0], a.CastExpression) and args[0].GetArgument() is e0 and args[0].IsImplicit() and repr(args[0].GetType()) == repr(T[pt])
+        R.check(f"CASTS.call[{at}->{pt}]", AIC + ".v_CallExpression", ok, detail=f"argument of type {at} for a parameter of type {pt}: arguments after the pass {[type(x).__name__ + ':' + str(x.GetType()) for x in args]}")
+    for rt, ats in (("float4", ["int2", "int", "float"]), ("float2", ["int", "uint"]), ("int4", ["float2", "int2"]), ("float4", ["float4"]), ("int2", ["int", "int"])):
+        es = [ag.E(f"e{i}", T[t]) for i, t in enumerate(ats)]
+        node = a.ConstructPrimitiveExpression(T[rt], list(es))
+        cls().v_Generic(node, None)
+        args = node.GetArguments()
+        want_c = tc.desc(T[rt])[1]
+        ok = len(args) == len(es)
+        for x, e, t in zip(args, es, ats):
+            if tc.desc(T[t])[1] == want_c:
+                ok = ok and x is e
+            else:
+                ok = ok and isinstance(x, a.CastExpression) and x.GetArgument() is e and tc.desc(x.GetType())[1] == want_c and tc.desc(x.GetType())[0] == tc.desc(T[t])[0] \
+                    and [str(z3.simplify(d)) for d in tc.desc(x.GetType())[2]] == [str(z3.simplify(d)) for d in tc.desc(T[t])[2]]
+        R.check(f"CASTS.construct[{rt}({','.join(ats)})]", AIC + ".v_ConstructPrimitiveExpression", ok, detail=f"arguments after the pass {[type(x).__name__ + ':' + str(x.GetType()) for x in args]}")
